@@ -62,11 +62,26 @@ def senForce (html : Bool) : Nat → Bytes → Bool
     if senClass b = cO || senClass b = c0 then senForce html 0 r
     else if senClass b = cX then true
     else if senClass b = cDot then true
-    else if senClass b = cH then html || senForce html 0 r
+    else if senClass b = cH then html || b = 38 || senForce html 0 r     -- `&` is not a parser token byte (9fd0aeb)
     else if senClass b = c8 then
       if (utf8Decode (b :: r)).1 = 0x2028 || (utf8Decode (b :: r)).1 = 0x2029 || (utf8Decode (b :: r)).1 = runeError
       then true
       else senForce html ((utf8Decode (b :: r)).2 - 1) r
+    else true
+
+/-- `senForce` BEFORE 9fd0aeb: `&` did not ask for quotes when not htmlSafe -/
+def senForceBefore (html : Bool) : Nat → Bytes → Bool
+  | _, [] => false
+  | skip+1, _ :: r => senForceBefore html skip r
+  | 0, b :: r =>
+    if senClass b = cO || senClass b = c0 then senForceBefore html 0 r
+    else if senClass b = cX then true
+    else if senClass b = cDot then true
+    else if senClass b = cH then html || senForceBefore html 0 r
+    else if senClass b = c8 then
+      if (utf8Decode (b :: r)).1 = 0x2028 || (utf8Decode (b :: r)).1 = 0x2029 || (utf8Decode (b :: r)).1 = runeError
+      then true
+      else senForceBefore html ((utf8Decode (b :: r)).2 - 1) r
     else true
 
 def maxTokenLen : Nat := Gen.Root.maxTokenLen_int.toNat
@@ -86,6 +101,13 @@ def senQuoted (s : Bytes) (html : Bool) : Bool := firstForces html s || senForce
 def senString (s : Bytes) (html : Bool) : Bytes :=
   if s.isEmpty then [34, 34]
   else if senQuoted s html then 34 :: (senBody html 0 true s ++ [34])
+  else senBody html 0 true s
+
+/-- `AppendSENString` BEFORE 9fd0aeb (for the `_before` witness; the two `senMap` cells of that commit are
+regenerated data and cannot be turned back here) -/
+def senStringBefore (s : Bytes) (html : Bool) : Bytes :=
+  if s.isEmpty then [34, 34]
+  else if firstForces html s || senForceBefore html 0 s then 34 :: (senBody html 0 true s ++ [34])
   else senBody html 0 true s
 
 /-! ## the tight writer (`Indent == 0`, no `Tab`): sen/tight.go over simple data -/
